@@ -200,7 +200,7 @@ def record_hists(ctx, n, seeds=None, race=False):
     if seeds:
         env["VERIF_HSEEDS"] = ",".join(str(s) for s in seeds)
     rc, out, rows, path = go_rows(ctx, "TestZZVerifC09Conc", env, "hist_race" if race else "hist", race=race,
-                                  timeout=1500)
+                                  timeout=480)
     return rc, out, rows, path
 
 
